@@ -31,6 +31,11 @@ LEAN_MODULES = ["MiciVerif.Props.C15", "MiciVerif.Props.C15S"]
 LEAN_MODULES += ["MiciVerif.Props.C15P"]
 # --- end B13
 GENERATED = ["sampler_skeleton"]
+# --- B16: fill-value facts of _init_traces / _init_stats / _open_new_memmap re-derived from the regenerated
+# storage skeleton (Props/C15K.lean: NaN for every inexact dtype kind, both storage kinds)
+LEAN_MODULES += ["MiciVerif.Props.C15K"]
+GENERATED += ["sampler_storage_skeleton"]
+# --- end B16
 LEAN_EXTRA = c13.LEAN_EXTRA
 
 SIG_ADAPTIVE = "interrupt in adaptive stage: sample_chains raised"
@@ -535,6 +540,10 @@ def run(ctx: common.Ctx):
         {**c13.DEFAULT, "inits": [[0, 0], [1, 0], [2, 0]], "nw": 4, "nm": 2, "tw": False, "hs": True, "hf": False,
          "stager": ["win", 1, 1, 1, "2"]},
     ]
+    # --- B16: the fill value every unreached row must read: _init_traces called directly over dtype x shape x storage
+    # kind (all combinations when an obligation of Props/C15K / C13K is broken)
+    c13.storage_oracle(ctx, fill_only=True)
+    # --- end B16
     esc = c13.skeleton_escalation(ctx)  # > 1: the orchestration code is not the code the model was written against
     cfgs = fixed + [gen_cfg15(rng) for _ in range(ctx.n(30, 200))]
     n_par = 0
@@ -606,6 +615,13 @@ def all_workers_interrupted(ctx):
 
 
 def replay(ctx, obj):
+    # --- B16
+    if "storage" in obj:
+        try:
+            return any(b.startswith(("fill", "raised")) for b in c13.storage_case(obj))
+        except Exception:  # noqa: BLE001
+            return True
+    # --- end B16
     if "all_workers" in obj:
         sub = common.Ctx(ctx.prop, "thorough", ctx.seed)
         c13.classes()
@@ -665,3 +681,17 @@ TECHNIQUE = (
     "every user-function call index of real runs compared with the model and the uninterrupted run"
     " + AST-extracted control skeleton of the interrupt paths proved equal to the model's (decide +kernel)"
 )
+# --- B16
+LEVEL_TEXT += (
+    " Fill-value tie (Props/C15K): _init_traces / _init_stats / _open_new_memmap are re-extracted on every run; the "
+    "fill rule `init = np.nan if np.issubdtype(dtype, np.inexact) else 0`, read as a function of the dtype kind, is "
+    "proved to be NaN on every inexact kind (float16/32/64, longdouble, complex64/128, clongdouble) and 0 elsewhere, and "
+    "to reach every created trace array with both storage kinds for all chain counts / lengths / shapes; a new memmap is "
+    "filled completely before it is returned; statistics use the declared fill and every float statistic declares NaN."
+)
+LEVEL_NOTE += (
+    " Fill-value tie: NumPy's subtype lattice (which kinds are sub-dtypes of np.inexact / np.floating / ...) is a table "
+    "in Model/SamplerStorageSkeleton.lean, validated by calling _init_traces directly for 13 dtypes."
+)
+TECHNIQUE += " + AST-extracted fill rule read as a function of the dtype kind"
+# --- end B16
